@@ -17,7 +17,7 @@ func init() { core.Register(prop{}) }
 func (prop) ID() string { return "C16" }
 func (prop) Rule() string {
 	return "node-lite histories: 1-3 initial uploads / cached files, then 6-18 ops: uploads and cached files (pyramid exchange + full/partial fetch from a second real node) with overlapping content " +
-		"(identical files under two names, chunk-aligned prefixes, repeated chunks, files sharing one chunk, directories sharing files), DELETE /aurora/{root} and collection runs in all orders, some pins/unpins, chunkinfo restarts, read-back. " +
+		"(identical files under two names, chunk-aligned prefixes, repeated chunks, files sharing one chunk, directories sharing files), DELETE /aurora/{root} and collection runs in all orders, DELETEs held at the entry of ChunkInfo.DelFile while an upload or a DELETE of another (mostly overlapping) file completes (`delr`), some pins/unpins, chunkinfo restarts, read-back. " +
 		"Fixed regression histories first. After every op status + symbolic dump (stored set, pin index, gc index, pyramid refcounts, chunkinfo tables) are compared with the Lean model; " +
 		"the oracle reads every other fully stored file back through the joiner after each deletion / eviction and checks that no unpinned chunk used by no other known file remains. " +
 		"Non-trivial: >=2 files sharing a chunk are present and >=1 executed delete or gc run; distinct by op-list hash."
@@ -34,6 +34,12 @@ var fixed = []core.Case{
 	// repeated DELETE of a file that stays stored because it is pinned twice: the second DelFile runs on an unregistered root
 	{ID: "fix-double-delete-pinned-twice", NT: true, Ops: []string{"up x/AB 1", "up x/AB 1", "up z/AB 0", "del x/AB", "del x/AB", "up y/AB 0", "del y/AB", "read z/AB"}},
 	{ID: "fix-delete-repeated-chunk", NT: true, Ops: []string{"up s/AA 0", "up t/A 0", "del s/AA", "read t/A", "del t/A"}},
+	// list-then-remove of DELETE must be one step under chunkinfo's lock (seeded change C16-3 computed the list before DelFile):
+	// an overlapping file is uploaded completely while DELETE x is held at DelFile's entry
+	{ID: "fix-delete-held-upload", NT: true, Ops: []string{"up x/AB 0", "delr x/AB up y/ABA 0", "read y/ABA", "up x/AB 0", "delr y/ABA up z/AB 1", "read z/AB", "read x/AB", "del x/AB", "read z/AB"}},
+	// two overlapping DELETEs of files sharing all data chunks: nothing may stay behind
+	{ID: "fix-delete-held-delete", NT: true, Ops: []string{"up x/AB 0", "up z/AB 0", "delr x/AB del z/AB -", "read x/AB", "up t/A 0", "up s/AA 0", "up u/BA 0", "delr s/AA del t/A -", "read u/BA"}},
+	{ID: "fix-delete-held-dirs", NT: true, Ops: []string{"up p/a+q/b 0", "delr p/a+q/b up q/b+s/c 0", "read q/b+s/c", "up p/a+r/c 0", "delr q/b+s/c del p/a+r/c -", "delr x/a up y/a 0", "delr p/a+r/c del p/a+r/c -", "delr p/a+r/c up p/a+r/c 0"}},
 }
 
 func (prop) Gen(r *core.Rand, tier string) []core.Case {
@@ -50,6 +56,17 @@ func (prop) Gen(r *core.Rand, tier string) []core.Case {
 		ops := nodelite.GenHistory(r.Fork(), cfg)
 		cs = append(cs, core.Case{ID: fmt.Sprintf("g%d", i), NT: nontrivial(ops), Ops: ops})
 	}
+	// histories around held DELETEs (`delr`): generated AFTER the stream above so that its cases stay what they were;
+	// no pin/unpin ops here (uploads may carry the pin header)
+	m := 24
+	if tier == "thorough" {
+		m = 150
+	}
+	for i := 0; i < m; i++ {
+		cfg := nodelite.GenConfig{MinOps: 5, MaxOps: 12, PinUploads: 10, Deletes: 12, DelRace: 30, GC: 5, Cache: 8, Partial: i%3 == 0, Reads: 10, Dirs: true, Budget: 6}
+		ops := nodelite.GenHistory(r.Fork(), cfg)
+		cs = append(cs, core.Case{ID: fmt.Sprintf("h%d", i), NT: nontrivial(ops), Ops: ops})
+	}
 	return cs
 }
 
@@ -61,6 +78,11 @@ func nontrivial(ops []string) bool {
 		switch f[0] {
 		case "up", "pup":
 			files[f[1]] = true
+		case "delr":
+			if len(f) == 5 && f[2] == "up" {
+				files[f[3]] = true
+			}
+			removal = removal || len(files) >= 2
 		case "del", "gc":
 			removal = removal || len(files) >= 2
 		}
